@@ -281,7 +281,7 @@ def remove_ids(root, ids):
 
 # ---- paint attributes (presentation attributes only; style sheets are gen/styles.py) ---------------------------------
 
-COLOURS = ["red", "#00f", "#12ab34", "rgb(10,200,30)", "rgb(10%, 20%, 30%)", "none", "black", "hsl(120, 50%, 40%)", "#fa08", "Blue", "currentColor", "rgba(1,2,3,0.5)"]
+COLOURS = ["red", "#00f", "#12ab34", "rgb(10,200,30)", "rgb(10%, 20%, 30%)", "none", "black", "hsl(120, 50%, 40%)", "#fa08", "Blue", "currentColor", "rgba(1,2,3,0.5)", "#12345600", "rgba(9,8,7,0)"]
 
 
 def add_paint(R, root, prob=0.3):
